@@ -2,7 +2,7 @@
 
   PYTHONHASHSEED=0 PYTHONPATH=<strax tree>:/verif /venv/bin/python design_notes/C15_d7_demo.py [--os N]
 
-Part 1 (deterministic): replays the four minimal interleavings of coq/Proof/CtxRaceWitnessProof.v on the
+Part 1 (deterministic): replays the four minimal interleavings of coq/Proof/CtxRacePinnedWitnessProof.v on the
 real code with the line-level interleaver: two threads, each calling st.get_array(run, targets) on ONE
 context; a thread runs only while it holds the baton and hands it back at every source line of
 strax/context.py that touches _plugin_class_registry / _fixed_plugin_cache.
